@@ -282,7 +282,7 @@ func c13oracle(e *c13env, returned bool) {
 
 func c13symbolic(existing bool, steps int, overBid bool) {
 	e, o := c13new(overBid)
-	verif_EnvChan(e.events, "events", 2, func() interface{} { return e.mkEvent(verif_Pick("event", 6)) })
+	verif_EnvChan(e.events, "events", c13events, func() interface{} { return e.mkEvent(verif_Pick("event", 6)) })
 	verif_EnvFinal(o.lc.ShutdownRequest(), "shutdown", 1, func() interface{} { verif_Pick("shutdown", 1); return error(nil) })
 	verif_Steps(steps)
 	o.run(existing)
@@ -354,3 +354,14 @@ func Harness_C13_fresh_9()     { c13(false, 9, false) }
 func Harness_C13_existing_8()  { c13(true, 8, false) }
 func Harness_C13_existing_10() { c13(true, 10, false) }
 func Harness_C13_overbid_7()   { c13(false, 7, true) }
+
+// number of chain events the environment may deliver (2; 3 in the *_e3 harnesses)
+var c13events = 2
+
+func c13e3(existing bool, steps int) {
+	c13events = 3
+	defer func() { c13events = 2 }()
+	c13(existing, steps, false)
+}
+func Harness_C13_fresh_10_e3()    { c13e3(false, 10) }
+func Harness_C13_existing_11_e3() { c13e3(true, 11) }
